@@ -422,6 +422,27 @@ func run(c *mon.Ctx) {
 				checkPMT(c, "NewPMT-object-after-removal-on-another-object", m, &p, w("payload"))
 			}
 		}
+		// ---- ... and of nothing else: a buffer the payload was decoded from once is overwritten by its owner, then
+		// the same payload is decoded from other memory
+		if i%3 == 1 {
+			first := append([]byte{}, snap...)
+			if mf, err := psi.NewPMT(first); err == nil && mf != nil {
+				for k := range first {
+					first[k] ^= 0x5a
+				}
+				// (also the buffer this payload was decoded from for the very first time in this process; the
+				// objects decoded from it are not looked at any more)
+				for k := range full {
+					full[k] ^= 0xa5
+				}
+				c.Count("decode_again_after_first_buffer_overwritten")
+				if m6, err := psi.NewPMT(append([]byte{}, snap...)); err != nil || m6 == nil {
+					c.Fail("NewPMT-again:error", fmt.Sprintf("the same payload was rejected when parsed again after the buffer of an earlier parse was overwritten: %v", err), w("payload")(""))
+				} else {
+					checkPMT(c, "NewPMT-again-after-the-buffer-of-an-earlier-parse-was-overwritten", m6, &p, w("payload"))
+				}
+			}
+		}
 		// ---- class
 		dshape := 0
 		for _, s := range p.Streams {
@@ -443,8 +464,8 @@ func run(c *mon.Ctx) {
 
 	// ---- the decoders are functions of their argument whoever else is decoding at the same time
 	c.Floor("concurrent.calls", 5000)
-	c.Stream("concurrent-decoders", c.N(3, 150), func(i int, r *gen.Rand) {
-		c.Concurrent("psi.NewPMT", 8, 250, r, func(q *gen.Rand) string {
+	c.Stream("concurrent-decoders", c.N(8, 200), func(i int, r *gen.Rand) {
+		c.Concurrent("psi.NewPMT / psi.ReadPMT", 8, 2000, r, func(q *gen.Rand) string {
 			p := ref.GenPMT(q, 1+q.Intn(8))
 			pay := q.Slack(append(ref.PointerPrefix(q.Intn(4)), p.Section()...))
 			m, err := psi.NewPMT(pay)
@@ -458,6 +479,30 @@ func run(c *mon.Ctx) {
 			for k, st := range p.Streams {
 				if pids[k] != st.PID || ess[k].ElementaryPid() != st.PID || ess[k].StreamType() != st.Type || len(ess[k].Descriptors()) != len(st.Descs) {
 					return fmt.Sprintf("stream %d decoded as type %#x PID %#x with %d descriptors, encoded type %#x PID %#x with %d", k, ess[k].StreamType(), ess[k].ElementaryPid(), len(ess[k].Descriptors()), st.Type, st.PID, len(st.Descs))
+				}
+			}
+			// the same through a packet stream of this goroutine's own
+			const pmtPID = 0x1abc
+			pk, _ := ref.Packetise(pmtPID, q.Intn(16), pay, ref.RandChunks(q, 1+len(pay)/90), q.Bool())
+			var st bytes.Buffer
+			for k := range pk {
+				if q.Chance(3) {
+					o := ref.PaddedPacket(0x20+q.Intn(100), q.Intn(16), q.Bool(), q.Bytes(q.Intn(185)))
+					st.Write(o[:])
+				}
+				st.Write(pk[k][:])
+			}
+			mr, err := psi.ReadPMT(&st, pmtPID)
+			if err != nil || mr == nil {
+				return fmt.Sprintf("ReadPMT on a stream that carries the PMT in %d packets failed: %v", len(pk), err)
+			}
+			rp, re := mr.Pids(), mr.ElementaryStreams()
+			if len(rp) != len(p.Streams) || len(re) != len(p.Streams) || mr.VersionNumber() != p.Version {
+				return fmt.Sprintf("ReadPMT: %d PIDs / %d streams / version %d, the section has %d streams, version %d", len(rp), len(re), mr.VersionNumber(), len(p.Streams), p.Version)
+			}
+			for k, s := range p.Streams {
+				if rp[k] != s.PID || re[k].StreamType() != s.Type || len(re[k].Descriptors()) != len(s.Descs) {
+					return fmt.Sprintf("ReadPMT: stream %d decoded as type %#x PID %#x, encoded type %#x PID %#x", k, re[k].StreamType(), rp[k], s.Type, s.PID)
 				}
 			}
 			return ""
